@@ -34,6 +34,9 @@ inductive COp where
   | get
   | dropClone
   | upgrade
+  | sne (v : Nat)     -- `set_if_not_eq`
+  | update (k : Nat)  -- `update(|v| *v += k)`
+  | nextNow           -- `Subscriber::next_now` (the thread is a subscriber task)
   deriving Repr, DecidableEq
 
 /-- where a thread is inside its call (named after the pause point it is parked at) -/
@@ -58,6 +61,7 @@ inductive CRes where
   | prev (v : Nat)
   | value (v : Nat)
   | upgraded (ok : Bool)
+  | optPrev (o : Option Nat)
   deriving Repr, DecidableEq
 
 structure Th where
@@ -155,6 +159,30 @@ def CS.adv (s : CS) (t : Nat) : Option CS :=
       if s.ncStrong = 0 then
         some (setTh { s with stStrong := s.stStrong - 1 } { th with pc := .finished, res := .upgraded false })
       else some (setTh { s with ncStrong := s.ncStrong + 1 } { th with pc := .finished, res := .upgraded true })
+    -- `set_if_not_eq`: state.rs:95-104 — under the write lock; equal: nothing happens (no pause point inside: one
+    -- segment), different: the segments of `set`
+    | .sne v, .start =>
+      if s.writer.isSome || !s.readers.isEmpty then none
+      else if s.value = v then some (setTh s { th with pc := .finished, res := .optPrev none })
+      else some (setTh { s with writer := some t, value := v } { th with pc := .writeBeforeNotify s.value })
+    | .sne _, .writeBeforeNotify p =>
+      let s1 := { s with version := s.version + 1, wakers := [], ths := wakeAll s.ths s.wakers }
+      some ({ s1 with ths := s1.ths.set t { th with pc := .writeAfterNotify p } })
+    | .sne _, .writeAfterNotify p =>
+      some (setTh { s with writer := none } { th with pc := .finished, res := .optPrev (some p) })
+    -- `update`: state.rs:117-120 — the closure runs and `incr_version_and_wake` follows with no pause point between
+    | .update k, .start =>
+      if s.writer.isSome || !s.readers.isEmpty then none
+      else
+        let s1 := { s with writer := some t, value := s.value + k, version := s.version + 1, wakers := [],
+                           ths := wakeAll s.ths s.wakers }
+        some ({ s1 with ths := s1.ths.set t { th with pc := .writeAfterNotify s.value } })
+    | .update _, .writeAfterNotify _ =>
+      some (setTh { s with writer := none } { th with pc := .finished })
+    -- `next_now`: subscriber.rs — outer read lock, `version()` (metadata read lock), value; no pause point: one segment
+    | .nextNow, .start =>
+      if s.writer.isSome || s.metaHeld.isSome then none
+      else some (setTh s { th with pc := .finished, observed := s.version, res := .value s.value })
     | _, _ => none
 
 /-- initial state: `clones` clones exist, value `v`; the threads with their calls (subscriber threads start
